@@ -541,6 +541,138 @@ theorem C01_runIR_eq_eval_closed_partial (w : World) :
   ⟨fun e h env => C01_runIR_eq_eval_not_partial w e env (h env),
    fun l r hl hr env => C01_runIR_eq_eval_and_partial w l r env (hl env) (fun _ _ p _ _ => hr p.1)⟩
 
+/-! ### OR: `evaluate_right`, `evaluate_left`, `ElseIf`, `Union` -/
+
+theorem evalE_rightCall_src (lower : CallH) (nd : Node) (w : World) (b : IEnv) (L : List (String × V)) (s : Bool) :
+    evalE lower nd w (.call (.att (.att .self "right") "_evaluate__") (.cons (.nm "sources") (.cons (.kw "parent" .self) .nil)))
+        { locals := ("sources", .env b) :: L, isFalse := s }
+      = (nd.ev .right b.env >>= fun rs => pure (wrapChild b .right rs, s)) := by
+  rfl
+
+abbrev orRightBody : St :=
+  (.seq (.assign (.att .self "_is_false_") (.att (.nm "v1") "is_false")) (.seq (.assign (.att .self "right_evaluated") (.cst "True")) (.yld (.call (.nm "OperationResult") (.cons (.att (.nm "v1") "bindings") (.cons (.att .self "_is_false_") (.cons .self .nil)))))))
+
+theorem or_right_body (lower : CallH) (nd : Node) (w : World) (X Y : V) (r : IRes) (fr : Frame)
+    (hfr : fr.locals = [("v0", X), ("sources", Y)] ∨ ∃ y, fr.locals = ("v1", y) :: [("v0", X), ("sources", Y)]) :
+    (do let fr2 ← bindTarget fr (.nm "v1") (V.res r); exec lower nd w orRightBody fr2)
+      = .ok { fr := copyStep [("v0", X), ("sources", Y)] r fr, ys := [V.res r], ctl := .next } := by
+  obtain ⟨L, s⟩ := fr
+  rcases hfr with h | ⟨y, h⟩ <;> (simp only at h; subst h; rfl)
+
+theorem exec_seq_ok (lower : CallH) (nd : Node) (w : World) (a b : St) (fr fr1 : Frame) (ys1 : List V)
+    (h : exec lower nd w a fr = .ok { fr := fr1, ys := ys1, ctl := .next }) :
+    exec lower nd w (.seq a b) fr
+      = (exec lower nd w b fr1 >>= fun o2 => pure { fr := o2.fr, ys := ys1 ++ o2.ys, ctl := o2.ctl }) := by
+  rw [exec, h]; rfl
+
+/-- the flag `evaluate_right` leaves behind: the `is_false` of the last right result, or the incoming one -/
+def orRightFlag (b : IEnv) (s0 : Bool) (rs : List (Env × Val × Bool)) : Bool :=
+  (rs.foldl (fun f a => copyStep [("v0", wrapChild b .right rs), ("sources", V.env b)] (wrapC .right b a) f)
+    { locals := [("v0", wrapChild b .right rs), ("sources", V.env b)], isFalse := s0 }).isFalse
+
+theorem or_right_call (nd : Node) (hfind : irTable.find nd.cls "evaluate_right" = some mOrRight) (w : World)
+    (lower : CallH) (b : IEnv) (s0 : Bool) :
+    callWith irTable nd w lower "evaluate_right" [V.env b] s0
+      = (nd.ev .right b.env >>= fun rs => pure (V.list (rs.map fun a => V.res (wrapC .right b a)), orRightFlag b s0 rs)) := by
+  rw [callWith_find _ _ _ _ _ _ _ mOrRight hfind]
+  simp only [mOrRight, bindParams]
+  rw [exec_seq_det lower nd w _ _ _ { locals := [("sources", V.env b)], isFalse := s0 } (by rfl)]
+  rw [exec_seq_assign_nm, evalE_rightCall_src]
+  cases hF : nd.ev .right b.env with
+  | error e => rfl
+  | ok rs =>
+    have hloop : exec lower nd w (.forIn (.nm "v1") (.nm "v0") orRightBody)
+          { locals := [("v0", wrapChild b .right rs), ("sources", V.env b)], isFalse := s0 }
+        = .ok { fr := rs.foldl (fun f a => copyStep [("v0", wrapChild b .right rs), ("sources", V.env b)] (wrapC .right b a) f)
+                        { locals := [("v0", wrapChild b .right rs), ("sources", V.env b)], isFalse := s0 },
+                ys := rs.flatMap (fun a => [V.res (wrapC .right b a)]), ctl := .next } := by
+      rw [exec_forIn]
+      show loopSt (rs.map fun a => V.res (wrapC .right b a)) { locals := [("v0", wrapChild b .right rs), ("sources", V.env b)], isFalse := s0 }
+              (fun x fr1 => do let fr2 ← bindTarget fr1 (.nm "v1") x; exec lower nd w orRightBody fr2) = _
+      exact loopSt_det _ (fun fr => fr.locals = [("v0", wrapChild b .right rs), ("sources", V.env b)] ∨ ∃ y, fr.locals = ("v1", y) :: [("v0", wrapChild b .right rs), ("sources", V.env b)])
+        (fun a => copyStep [("v0", wrapChild b .right rs), ("sources", V.env b)] (wrapC .right b a))
+        (fun a => [V.res (wrapC .right b a)]) (fun a => V.res (wrapC .right b a))
+        (fun a fr hfr => ⟨Or.inr ⟨_, rfl⟩, or_right_body lower nd w _ _ _ fr hfr⟩) _ _ (Or.inl rfl)
+    show (exec lower nd w (.seq (.forIn (.nm "v1") (.nm "v0") orRightBody) (.assign (.att .self "right_evaluated") (.cst "False")))
+            { locals := [("v0", wrapChild b .right rs), ("sources", V.env b)], isFalse := s0 } >>= post) = _
+    have hassign : ∀ fr : Frame, exec lower nd w (.assign (.att .self "right_evaluated") (.cst "False")) fr
+        = .ok { fr := fr, ys := [], ctl := .next } := fun fr => rfl
+    rw [exec_seq_ok lower nd w _ _ _ _ _ hloop, flatMap_single, hassign]
+    show (post { fr := _, ys := (rs.map fun a => V.res (wrapC .right b a)) ++ [], ctl := .next }) = _
+    rw [List.append_nil]
+    rfl
+
+/-- `flatMapM` in `R` with the `_is_false_` flag threaded from one element to the next -/
+def flatMapRF {α γ} (xs : List α) (g : α → Bool → R γ) (ysOf : γ → List V) (flagOf : γ → Bool) (s : Bool) :
+    R (List V × Bool) :=
+  match xs with
+  | [] => .ok ([], s)
+  | a :: r => do
+    let c ← g a s
+    let p ← flatMapRF r g ysOf flagOf (flagOf c)
+    pure (ysOf c ++ p.1, p.2)
+
+/-- `loopSt_spec` with the flag: the body may read the incoming flag and leaves `flagOf` of its result behind -/
+theorem loopSt_specF {α β γ} (body : V → Frame → R Out) (Inv : Frame → Prop) (g : α → Bool → R γ) (ysOf : γ → List V)
+    (flagOf : γ → Bool) (toV : α → V)
+    (hbody : ∀ a fr, Inv fr → ∃ nxt : γ → Frame, (∀ c, Inv (nxt c) ∧ (nxt c).isFalse = flagOf c) ∧
+      body (toV a) fr = (g a fr.isFalse >>= fun c => pure { fr := nxt c, ys := ysOf c, ctl := .next }))
+    (xs : List α) : ∀ (fr : Frame) (k : List V → Ctl → Bool → R β), Inv fr →
+      (loopSt (xs.map toV) fr body >>= fun o => k o.ys o.ctl o.fr.isFalse)
+        = (flatMapRF xs g ysOf flagOf fr.isFalse >>= fun p => k p.1 .next p.2) := by
+  induction xs with
+  | nil => intro fr k _; rfl
+  | cons a rest ih =>
+    intro fr k hfr
+    obtain ⟨nxt, hinv, hb⟩ := hbody a fr hfr
+    rw [List.map_cons, loopSt, hb]
+    cases hg : g a fr.isFalse with
+    | error e => rw [flatMapRF, hg]; rfl
+    | ok c =>
+      have h1 := ih (nxt c) (fun ys c' s => k (ysOf c ++ ys) c' s) (hinv c).1
+      rw [(hinv c).2] at h1
+      rw [flatMapRF, hg]
+      show ((loopSt (List.map toV rest) (nxt c) body >>= fun o2 => (pure { fr := o2.fr, ys := ysOf c ++ o2.ys, ctl := o2.ctl } : R Out)) >>= fun o => k o.ys o.ctl o.fr.isFalse)
+        = ((flatMapRF rest g ysOf flagOf (flagOf c) >>= fun p => (pure (ysOf c ++ p.1, p.2) : R (List V × Bool))) >>= fun p => k p.1 .next p.2)
+      rw [bind_assoc, bind_assoc]
+      simp only [pure_bind]
+      exact h1
+
+abbrev orLeftBody : St :=
+  (.seq (.assign (.att .self "left_evaluated") (.cst "True")) (.seq (.assign (.nm "v2") (.att (.nm "v1") "is_false")) (.ifte (.nm "v2") (.yldFrom (.call (.att .self "evaluate_right") (.cons (.att (.nm "v1") "bindings") .nil))) (.seq (.assign (.att .self "_is_false_") (.cst "False")) (.yld (.call (.nm "OperationResult") (.cons (.att (.nm "v1") "bindings") (.cons (.att .self "_is_false_") (.cons .self .nil)))))))))
+
+def LBl (X S : V) : List (String × V) := [("v0", X), ("sources", S)]
+
+set_option maxHeartbeats 3200000 in
+theorem or_left_body_true (lower : CallH) (nd : Node) (w : World) (X S : V) (b : IEnv) (fr : Frame)
+    (hfr : fr.locals = LBl X S ∨ ∃ y z, fr.locals = ("v2", z) :: ("v1", y) :: LBl X S) :
+    (do let fr2 ← bindTarget fr (.nm "v1") (V.res { b := b, isFalse := false }); exec lower nd w orLeftBody fr2)
+      = .ok { fr := { locals := ("v2", .bool false) :: ("v1", V.res { b := b, isFalse := false }) :: LBl X S, isFalse := false },
+              ys := [V.res { b := b, isFalse := false }], ctl := .next } := by
+  obtain ⟨L, s⟩ := fr
+  rcases hfr with h | ⟨y, z, h⟩ <;> (simp only at h; subst h; rfl)
+
+set_option maxHeartbeats 3200000 in
+theorem or_left_body_false (lower : CallH) (nd : Node) (w : World) (X S : V) (b : IEnv) (fr : Frame)
+    (hfr : fr.locals = LBl X S ∨ ∃ y z, fr.locals = ("v2", z) :: ("v1", y) :: LBl X S) :
+    (do let fr2 ← bindTarget fr (.nm "v1") (V.res { b := b, isFalse := true }); exec lower nd w orLeftBody fr2)
+      = (lower "evaluate_right" [V.env b] fr.isFalse >>= fun p => iterV p.1 >>= fun xs =>
+          pure { fr := { locals := ("v2", .bool true) :: ("v1", V.res { b := b, isFalse := true }) :: LBl X S, isFalse := p.2 },
+                 ys := xs, ctl := .next }) := by
+  obtain ⟨L, s⟩ := fr
+  have h1 : (do let fr2 ← bindTarget { locals := L, isFalse := s } (.nm "v1") (V.res { b := b, isFalse := true }); exec lower nd w orLeftBody fr2)
+      = exec lower nd w (.ifte (.nm "v2") (.yldFrom (.call (.att .self "evaluate_right") (.cons (.att (.nm "v1") "bindings") .nil))) (.seq (.assign (.att .self "_is_false_") (.cst "False")) (.yld (.call (.nm "OperationResult") (.cons (.att (.nm "v1") "bindings") (.cons (.att .self "_is_false_") (.cons .self .nil)))))))
+          { locals := ("v2", .bool true) :: ("v1", V.res { b := b, isFalse := true }) :: LBl X S, isFalse := s } := by
+    rcases hfr with h | ⟨y, z, h⟩ <;>
+      (simp only at h; subst h
+       rw [show (do let fr2 ← bindTarget { locals := _, isFalse := s } (.nm "v1") (V.res { b := b, isFalse := true }); exec lower nd w orLeftBody fr2)
+            = exec lower nd w orLeftBody { locals := ("v1", V.res { b := b, isFalse := true }) :: LBl X S, isFalse := s } from rfl]
+       rw [exec_seq_det lower nd w _ _ _ { locals := ("v1", V.res { b := b, isFalse := true }) :: LBl X S, isFalse := s } (by rfl)]
+       rw [exec_seq_det lower nd w _ _ _ { locals := ("v2", .bool true) :: ("v1", V.res { b := b, isFalse := true }) :: LBl X S, isFalse := s } (by rfl)])
+  rw [h1]
+  rfl
+
+
 /-! ### non-vacuity: the hypotheses of the node and step theorems are satisfiable, and the interpreter runs in the kernel -/
 
 example : ∃ nd : Node, nd.cls = "Not" ∧ nd.keyOf .self = none := ⟨{ cls := "Not" }, rfl, rfl⟩
